@@ -88,7 +88,7 @@ theorem request_rel {s s' : S} {op pid : Nat} {k : Kind} {dup : Bool} {body : Na
     intro hq; subst hq; rw [h0] at hfree; cases hfree
   · refine rel_keep_upd ⟨sl0, h0, h1, h2⟩ ?_
     intro hq; subst hq; rw [h0] at hs; cases hs
-    rcases hph with hph | hph <;> simp [hph, relPhase] at h2
+    simp [hph, relPhase] at h2
 
 theorem relInv_step (hist : List Ev) (s : S) (e : Ev) (s' : S) (II : IdInv hist s) (I : RelInv hist s) (h : step s e = some s') :
     RelInv (hist ++ [e]) s' := by
@@ -240,7 +240,7 @@ theorem no_publish_after_pubrel {pre post : List Ev} {op q p : Nat} {dup : Bool}
       · rcases R with hd | ⟨sl0, h0, _, h2⟩
         · rw [hnd] at hd; cases hd
         · rw [hsl] at h0; cases h0
-          rcases hph with hph | hph <;> simp [hph, relPhase] at h2
+          simp [hph, relPhase] at h2
     · simp at hs
 
 
@@ -310,8 +310,8 @@ inductive SlotStep (e : Ev) (sl : Slot) : Slot → Prop
   | wrOk : e = .wrOk → SlotStep e sl sl.onWrOk
   | wrFail : e = .wrFail → SlotStep e sl sl.onWrFail
   | rx (a : Ack) : e = .rx a → SlotStep e sl (sl.onRx a)
-  | resend (pk : Out) : e = .pk pk → (sl.phase = .idle ∨ sl.phase = .waiting) → SlotStep e sl { sl with phase := .writing, fast := none }
-  | rel (pk : Out) : e = .pk pk → (sl.phase = .relIdle ∨ sl.phase = .relWaiting) → SlotStep e sl { sl with phase := .relWriting, fast := none }
+  | resend (pk : Out) : e = .pk pk → sl.phase = .idle → SlotStep e sl { sl with phase := .writing, fast := none }
+  | rel (pk : Out) : e = .pk pk → sl.phase = .relIdle → SlotStep e sl { sl with phase := .relWriting, fast := none }
 
 theorem upd_other {s : S} {p q : Nat} {o : Option Slot} (hq : p ≠ q) : upd s.slot q o p = s.slot p := by simp [upd, hq]
 
@@ -445,8 +445,8 @@ theorem slotStep_writing {e : Ev} {sl sl' : Slot} (h : SlotStep e sl sl') (hw : 
       · rename_i h1; rw [hw] at h1; cases h1
       · split <;> exact hw
     · exact hw
-  | resend _ _ hph => rcases hph with h1 | h1 <;> simp [hw] at h1
-  | rel _ _ hph => rcases hph with h1 | h1 <;> simp [hw] at h1
+  | resend _ _ hph => simp [hw] at hph
+  | rel _ _ hph => simp [hw] at hph
 
 theorem onWrOk_sets_okBefore (sl : Slot) (hw : sl.phase = .writing) : sl.onWrOk.okBefore = true := by
   unfold Slot.onWrOk; simp only [hw]
